@@ -567,7 +567,9 @@ class Monitor:
             if book:
                 self.had_crash = True
                 self.crashed[book[0]] += 1
-                if c is not None and ret != "crash:" + esc(c[book[0]]):
+                if c is not None and book[0] >= len(c):
+                    self.fire(["C16", "C09"], "book-index-out-of-range", f"gw{n}'s book {book} holds an index beyond the agreed collection ({len(c)} tests)", ops, {})
+                elif c is not None and ret != "crash:" + esc(c[book[0]]):
                     self.fire(["C03"], "wrong-crash-item", f"remove_node returned {ret}, the dead worker was on {c[book[0]]!r}", ops, {"book": book})
             elif ret != "crash:None":
                 self.fire(["C03"], "crash-item-for-idle-node", f"remove_node returned {ret} for a node holding nothing", ops, {})
